@@ -17,9 +17,9 @@ ASSUMPTIONS = ['when no rule applies the property only requires the rule-match e
 STACKS = ['IPv6-UDP-CoAP', 'IPv4-UDP-CoAP', 'UDP', 'CoAP', 'SCTP']
 
 
-def one(b, rnd, stack, pkt, pd, rules, d, strat, klass):
-    ctx = Context(id='c', description='', interface_id='i', parser_id=stack, ruleset=rules)
-    cm = ContextManager(ctx)
+def one(b, rnd, stack, pkt, pd, rules, d, strat, klass, cm=None):
+    if cm is None:
+        cm = ContextManager(Context(id='c', description='', interface_id='i', parser_id=stack, ruleset=rules))
     bits = b2s(pkt)
     out = obs_bits(with_timeout(lambda: cm.compress(Buffer(pkt, len(pkt) * 8), direction=d, match_strategy=strat)))
     nrs = [n_rule(r) for r in rules]
@@ -43,7 +43,7 @@ def one(b, rnd, stack, pkt, pd, rules, d, strat, klass):
     if nrs and nrs[-1]['nature'] == 'N' and out[0] != 'OK':
         fails.append('a default rule ends the set but compress gave %s' % (str(out)[:100],))
     line = ' '.join(['S', 'cmcompressp', stack, tb(bits), DIRC[d], 'F' if strat == MatchStrategy.FIRST else 'B'] + rules_tokens(nrs))
-    b.add(klass, line, out, parse_model_bits, fails, dict(layer='schc', op='cmcompress', stack=stack, packet=pkt.hex(), rules=nrs, direction=DIRC[d], strategy=strat.value), key=line)
+    b.add(klass, line, out, parse_model_bits, fails, dict(layer='schc', op='cmcompress', stack=stack, packet=pkt.hex(), rules=nrs, direction=DIRC[d], strategy=strat.value), key=(line, id(cm)))
 
 
 def run(rep, tier, seed):
@@ -58,6 +58,29 @@ def run(rep, tier, seed):
             rules = gen_ruleset(rnd, pd, direction=rnd.choice([DI.BIDIRECTIONAL, DI.BIDIRECTIONAL, d]))
             for strat in (MatchStrategy.FIRST, MatchStrategy.BEST):
                 one(b, rnd, stack, pkt, pd, rules, d, strat, 'select:%s:%s' % (stack, strat.value))
+    # one long-lived manager answering both directions and both strategies in turn, rules with Up / Dw alternatives
+    from p_c18 import dir_rule
+    from schc_util import prefix_free_ids
+    from microschc.rfc8724 import RuleDescriptor
+    from gens import no_compression_rule
+    for i in range(n // 3):
+        stack, pkt, st, pd = gen_parsed(rnd, STACKS[i % len(STACKS)])
+        k = rnd.randint(2, 5)
+        ids = prefix_free_ids(rnd, k + 1)
+        rules = []
+        for j in range(k):
+            dj = rnd.choice([DI.UP, DI.DOWN])
+            pd.direction = dj
+            r, _ = dir_rule(rnd, pd, dj)
+            rules.append(RuleDescriptor(id=mk(ids[j], rnd.choice([L, R])), field_descriptors=r.field_descriptors))
+        if rnd.random() < 0.5:
+            rules.append(no_compression_rule(ids[k]))
+        cm = ContextManager(Context(id='c', description='', interface_id='i', parser_id=stack, ruleset=rules))
+        for step in range(6):
+            d = rnd.choice([DI.UP, DI.DOWN])
+            pd.direction = d
+            strat = rnd.choice([MatchStrategy.FIRST, MatchStrategy.BEST])
+            one(b, rnd, stack, pkt, pd, rules, d, strat, 'select-long-lived:%s' % strat.value, cm=cm)
     b.run()
 
 
